@@ -174,56 +174,3 @@ fn c17_pop_if_under_interference() {
         kani::cover!(interfered && r.is_none(), "cover.pop_if.new_head_fails_predicate");
     }
 }
-
-// ================================================================================================
-// C17 — try_pop under interference: None only if the queue was empty at some instant of the call
-// ================================================================================================
-static mut QENV_ARMED: bool = false;
-static mut QENV_IN: bool = false;
-static mut QENV_Q: usize = 0;
-static mut QENV_DONE: bool = false;
-/// ONE composite environment step (the rely is transitive): a producer pushes B and another consumer
-/// pops the head A.  The queue goes [A] -> [A,B] -> [B]: it is never empty.
-unsafe fn q_env() {
-    if !QENV_ARMED || QENV_IN || !kani::any::<bool>() { return; }
-    QENV_ARMED = false; QENV_IN = true;
-    let q = &*(QENV_Q as *const Queue<u8>);
-    let g = core::mem::ManuallyDrop::new(unprotected());
-    q.push(66, &g);
-    let popped = q.try_pop(&g);
-    assert!(popped == Some(65), "C17.pop.environment_consumer_gets_the_head_fifo");
-    QENV_IN = false; QENV_DONE = true;
-}
-fn q_load<T: Copy>(a: &atomic::Atomic<T>, _o: core::sync::atomic::Ordering) -> T {
-    unsafe { q_env(); let s = a as *const atomic::Atomic<T> as *const usize; core::mem::transmute_copy(&*s) }
-}
-fn q_cas<T: Copy>(a: &atomic::Atomic<T>, cur: T, new: T, _s: core::sync::atomic::Ordering, _f: core::sync::atomic::Ordering) -> Result<T, T> {
-    unsafe {
-        q_env();
-        let s = a as *const atomic::Atomic<T> as *mut usize;
-        let old = *s;
-        let curw: usize = core::mem::transmute_copy(&cur);
-        if old == curw { *s = core::mem::transmute_copy(&new); Ok(core::mem::transmute_copy(&old)) } else { Err(core::mem::transmute_copy(&old)) }
-    }
-}
-#[kani::proof]
-#[kani::stub(atomic::Atomic::load, q_load)]
-#[kani::stub(atomic::Atomic::compare_exchange, q_cas)]
-#[kani::stub(Guard::defer_destroy, k_retire)]
-#[kani::stub(crossbeam_utils::Backoff::spin, k_spin)]
-#[kani::unwind(6)]
-fn c17_try_pop_none_only_if_empty() {
-    unsafe {
-        let q = core::mem::ManuallyDrop::new(Queue::<u8>::new());
-        let g = core::mem::ManuallyDrop::new(unprotected());
-        q.push(65, &g);
-        QENV_Q = &*q as *const Queue<u8> as usize;
-        QENV_ARMED = true;
-        let r = q.try_pop(&g);
-        // the queue held at least one element at every instant of the call
-        assert!(r.is_some(), "C17.pop.none_only_if_queue_was_empty_at_some_instant");
-        assert!(r == Some(65) || (QENV_DONE && r == Some(66)), "C17.pop.returns_an_element_that_was_the_head");
-        kani::cover!(QENV_DONE && r == Some(66), "cover.try_pop.after_interference");
-        kani::cover!(!QENV_DONE, "cover.try_pop.no_interference");
-    }
-}
